@@ -36,6 +36,10 @@ TicketRule ==       \* single ticket: 2t+1 in the outcome's cdf interval (either
       ELSE LET N == Ev.par[1] K == Ev.par[2] n == Ev.par[3] lo == HypCdf(N, K, n, Ev.out - 1) hi == HypCdf(N, K, n, Ev.out) tot == HypDen(N, n) IN
            Ev.out \in 0..n /\ ((2 * lo < 2 * tt + 1 /\ 2 * tt + 1 < 2 * hi) \/ (2 * (tot - hi) < 2 * tt + 1 /\ 2 * tt + 1 < 2 * (tot - lo)))
 
+\* Zipf(n, 0) is documented to be the uniform law on 1..n: every value gets d/n of the d tickets
+Zipf0Rule == /\ Len(Ev.counts) = Ev.n /\ Ev.other = 0 /\ Ev.panics = 0
+             /\ \A v \in 1..Ev.n : Ev.counts[v] * Ev.n = Ev.d
+
 \* Geometric, trivial algorithm (p >= 2/3): draws are classified by the harness' script as
 \* "s" (u <= p: success) or "f"; the result is the number of leading failures
 RECURSIVE LeadingF(_)
@@ -73,6 +77,7 @@ SgeoRule == Ev.out = SgSum(Ev.lz) /\ Ev.words = SgWords(Ev.lz)
 
 Rule == CASE Ev.op = "hist"   -> ~InRegime \/ HistRule
           [] Ev.op = "ticket" -> ~InRegime \/ TicketRule
+          [] Ev.op = "zipf0"  -> ~InRegime \/ Zipf0Rule
           [] Ev.op = "geo"    -> GeoRule
           [] Ev.op = "bf"     -> BfRule
           [] Ev.op = "bft"    -> BftRule
